@@ -20,9 +20,10 @@ META = {
         'were lost); R3 every _export_metadata(rowid, T) passes a sanitized table name T and a rowid that is the rowid column '
         'of T in the query row it was unpacked from; R4 every query the exporter issues is scoped by the one-tuple of the '
         'exported lexicon rowid (C04-R2); R5 export() runs _precheck before building anything and writes through lmf.dump; '
-        'R9 a synset\'s members and an entry\'s senses are drawn per owner from the rank-ordered queries; R8 no comparison in the exporter tests a stored value against a constant (the exported content of an element does not depend on its part of speech, type, ...). R10 the exporter\'s output goes through the writer analysis of C02-R5 (values quoted by quoteattr / ElementTree).'),
+        'R9 a synset\'s members and an entry\'s senses are drawn per owner from the rank-ordered queries; R8 no comparison in the exporter tests a stored value against a constant (the exported content of an element does not depend on its part of speech, type, ...). R10 the exporter\'s output goes through the writer analysis of C02-R5 (values quoted by quoteattr / ElementTree). R11 every query reachable from export() is lexicon-scoped (C04-R1 on that call graph). R12 every frame written under version >= 1.1 has an identity a <Sense subcat> can refer to (a nullable id written as \'\' with no senses list is a frame whose links are lost). R13 belief analysis: a query-result position that one consumer in the exporter guards with `or` / a truth test may be absent, so no other consumer - directly or through a table handed to a helper - may order or join it unfiltered (TypeError on None).'),
     'decides': ['exporter key coverage', 'version-guard consistency', 'metadata provenance', 'single-lexicon scoping', 'precheck first',
-                'exporter never switches on stored values', 'declared order of members / senses exported'],
+                'exporter never switches on stored values', 'declared order of members / senses exported',
+                'frames written for 1.1+ are referable', 'possibly absent ids are filtered before sorted()/join'],
     'not_decided': ['value-level reconstruction (e.g. ili="in" for a proposed ILI without definition)', 'equality of re-imported databases'],
     'assumptions': [],
 }
@@ -720,6 +721,262 @@ def r11_exported_queries_scoped(ctx, res):
         raise AnalysisError(f'only {n} table occurrences found in the query functions the exporter calls')
 
 
+def r12_frames_referable(ctx, res):
+    """sense-frame links in WN-LMF 1.1+: a <Sense> refers to lexicon-level frames by their id (subcat), so every frame written
+    under `version >= 1.1` needs an identity - a non-empty id, or its own `senses` list.  syntactic_behaviours.id is nullable
+    (frames of 1.0 sources have none): an exporter that writes such a frame with an empty id and no senses drops its links."""
+    f = ctx.repo.func('_export', '_export_syntactic_behaviours_1_1')
+    col = ctx.schema.col('syntactic_behaviours', 'id')
+    nullable = col is None or not (col.notnull or col.pk)
+    n = 0
+    for d, var, keys in _displays(f):
+        if 'subcategorizationFrame' not in keys:
+            continue
+        n += 1
+        key = 'frames-1.1:idless-unreferable'
+        idv = None
+        for k, v in zip(d.keys, d.values):
+            if k.value == 'id':
+                idv = v
+        why = None
+        if 'senses' in keys:
+            why = None
+        elif idv is None:
+            why = 'writes no id at all'
+        elif isinstance(idv, ast.Name) or (isinstance(idv, ast.BoolOp) and isinstance(idv.op, ast.Or)
+                                           and isinstance(idv.values[-1], ast.Constant) and not idv.values[-1].value) \
+                or (isinstance(idv, ast.IfExp) and any(isinstance(x, ast.Constant) and not x.value for x in (idv.body, idv.orelse))):
+            why = f'writes `{norm(idv)}` as the id' if nullable else None
+        res.inst(key, f.module.loc(d), f'id value `{norm(idv) if idv is not None else None}`; senses key: {"senses" in keys}; '
+                                       f'syntactic_behaviours.id nullable: {nullable}')
+        if why:
+            res.find(key, f.module.loc(d),
+                     f'_export_syntactic_behaviours_1_1 {why} for a frame stored without one (syntactic_behaviours.id is nullable: '
+                     f'WN-LMF 1.0 sources) and no `senses`: in a 1.1+ export nothing links such a frame to its senses, the re-imported '
+                     f'lexicon has the frame but Sense.frames() is empty')
+    if n < 1:
+        raise AnalysisError('_export_syntactic_behaviours_1_1 builds no SyntacticBehaviour record')
+
+
+# ---------------------------------------------------------------------------
+# R13: a stored value the exporter itself treats as possibly absent is never ordered or joined unguarded
+
+def _truth_guarded(fn_node, name):
+    """uses of `name` that state "may be None / empty": `name or X`, `X if name else Y`, `if name`, `name is (not) None`"""
+    for n in walk_no_nested(fn_node):
+        if isinstance(n, ast.BoolOp) and isinstance(n.op, ast.Or) and isinstance(n.values[0], ast.Name) and n.values[0].id == name:
+            return True
+        if isinstance(n, (ast.IfExp, ast.If, ast.While)) and isinstance(n.test, ast.Name) and n.test.id == name:
+            return True
+        if isinstance(n, ast.Compare) and isinstance(n.left, ast.Name) and n.left.id == name and len(n.ops) == 1 \
+                and isinstance(n.ops[0], (ast.Is, ast.IsNot)) and isinstance(n.comparators[0], ast.Constant) and n.comparators[0].value is None:
+            return True
+        if isinstance(n, ast.comprehension) and any(isinstance(c, ast.Name) and c.id == name for c in n.ifs):
+            return True
+    return False
+
+
+def _tuple_targets(fn_node):
+    """(target tuple, iterable) of every for statement / comprehension clause with a tuple target"""
+    for n in walk_no_nested(fn_node):
+        if isinstance(n, (ast.For, ast.comprehension)) and isinstance(n.target, (ast.Tuple, ast.List)):
+            yield n.target, n.iter, n
+
+
+def r13_absent_values_guarded(ctx, res):
+    """(belief analysis) when one consumer of a query result position in the exporter guards it against None / '' (`id or ''`),
+    the value may be absent; every other consumer that orders (sorted, min, max) or joins (' '.join) it - directly or after it
+    went through a local table handed down to a helper - must filter it: sorted() over None raises TypeError."""
+    exp_funcs = [f for f in ctx.repo.all_funcs() if f.module.short == '_export']
+    # 1. beliefs: (query function, position) guarded somewhere
+    src_of = {}      # (func key, name) -> (query, position)
+    maybe_absent = {}
+    for f in exp_funcs:
+        calls = {id(c): cal for c, cal in ctx.cg.callees(f)}
+        for tgt, it, node in _tuple_targets(f.node):
+            c = it
+            while isinstance(c, ast.Call) and isinstance(c.func, ast.Name) and c.func.id in ('list', 'sorted', 'tuple', 'iter') and c.args:
+                c = c.args[0]
+            cal = calls.get(id(c)) if isinstance(c, ast.Call) else None
+            if not cal or not all(x.module.short == '_queries' for x in cal):
+                continue
+            for i, t in enumerate(tgt.elts):
+                if isinstance(t, ast.Name) and t.id != '_':
+                    for q in cal:
+                        src_of[(f.key, t.id)] = (q.name, i)
+                        if _truth_guarded(f.node, t.id):
+                            maybe_absent.setdefault((q.name, i), f.qualname)
+    # 2. names holding a possibly absent value; tables (local / parameter) whose tuples hold one at index k
+    absent_names = {k: v for k, v in src_of.items() if v in maybe_absent}
+    tables = {}      # (func key, var) -> {index: source}
+    changed = True
+    rounds = 0
+    while changed and rounds < 6:
+        changed = False
+        rounds += 1
+        for f in exp_funcs:
+            for n in walk_no_nested(f.node):
+                # C.setdefault(k, []).append((a, b)) / C[k].append((a, b)) / C.append((a, b))
+                if isinstance(n, ast.Call) and isinstance(n.func, ast.Attribute) and n.func.attr in ('append', 'add') and n.args \
+                        and isinstance(n.args[0], ast.Tuple):
+                    base = n.func.value
+                    while isinstance(base, (ast.Subscript, ast.Call, ast.Attribute)):
+                        base = base.value if isinstance(base, (ast.Subscript, ast.Attribute)) else base.func
+                    if not isinstance(base, ast.Name):
+                        continue
+                    for i, e in enumerate(n.args[0].elts):
+                        if isinstance(e, ast.Name) and (f.key, e.id) in absent_names:
+                            d = tables.setdefault((f.key, base.id), {})
+                            if i not in d:
+                                d[i] = absent_names[(f.key, e.id)]
+                                changed = True
+            # a table handed to another exporter function
+            for call, cal in ctx.cg.callees(f):
+                for c in cal:
+                    if c.module.short != '_export':
+                        continue
+                    ps = c.params
+                    bound = list(zip(ps, call.args)) + [(k.arg, k.value) for k in call.keywords if k.arg]
+                    for pn, a in bound:
+                        if isinstance(a, ast.Name) and (f.key, a.id) in tables:
+                            d = tables.setdefault((c.key, pn), {})
+                            for i, srcq in tables[(f.key, a.id)].items():
+                                if i not in d:
+                                    d[i] = srcq
+                                    changed = True
+            # rows read back from a table
+            for tgt, it, node in _tuple_targets(f.node):
+                b = it
+                while isinstance(b, (ast.Subscript, ast.Call, ast.Attribute)):
+                    b = b.value if isinstance(b, (ast.Subscript, ast.Attribute)) else b.func
+                if isinstance(b, ast.Name) and (f.key, b.id) in tables:
+                    for i, t in enumerate(tgt.elts):
+                        if isinstance(t, ast.Name) and t.id != '_' and i in tables[(f.key, b.id)] and (f.key, t.id) not in absent_names:
+                            absent_names[(f.key, t.id)] = tables[(f.key, b.id)][i]
+                            changed = True
+    res.note(f'positions guarded somewhere: {sorted(maybe_absent)}; tables carrying them: '
+             f'{sorted((k[0].split(".")[-1], k[1], sorted(v)) for k, v in tables.items())}')
+    # 3. ordering / joining sinks
+    n = 0
+    for f in exp_funcs:
+        for c in walk_no_nested(f.node):
+            if not isinstance(c, ast.Call) or not c.args:
+                continue
+            is_order = isinstance(c.func, ast.Name) and c.func.id in ('sorted', 'min', 'max') and not any(k.arg == 'key' for k in c.keywords)
+            is_join = isinstance(c.func, ast.Attribute) and c.func.attr == 'join' and isinstance(c.func.value, ast.Constant)
+            if not (is_order or is_join):
+                continue
+            a = c.args[0]
+            elts = []
+            if isinstance(a, (ast.GeneratorExp, ast.ListComp, ast.SetComp)):
+                filt = set()
+
+                def conj(x):
+                    if isinstance(x, ast.BoolOp) and isinstance(x.op, ast.And):
+                        for y in x.values:
+                            conj(y)
+                    elif isinstance(x, ast.Name):
+                        filt.add(x.id)
+                    elif isinstance(x, ast.Compare) and isinstance(x.left, ast.Name) and len(x.ops) == 1 \
+                            and isinstance(x.ops[0], (ast.IsNot, ast.NotEq)) and isinstance(x.comparators[0], ast.Constant) \
+                            and x.comparators[0].value is None:
+                        filt.add(x.left.id)
+                for g in a.generators:
+                    for x in g.ifs:
+                        conj(x)
+                elts = [(e, filt) for e in ([a.elt] if not isinstance(a.elt, ast.Tuple) else a.elt.elts)]
+            elif isinstance(a, (ast.List, ast.Tuple)):
+                elts = [(e, set()) for e in a.elts]
+            for e, filt in elts:
+                if isinstance(e, ast.Name) and (f.key, e.id) in absent_names:
+                    n += 1
+                    q, i = absent_names[(f.key, e.id)]
+                    key = f'absent-ordered:{f.qualname}:{e.id}<-{q}[{i}]'
+                    res.inst(key, f.module.loc(c), f'`{norm(c)[:70]}`; filtered: {e.id in filt}')
+                    if e.id not in filt:
+                        res.find(key, f.module.loc(c),
+                                 f'{f.qualname}: `{norm(c)[:80]}` orders / joins `{e.id}`, which is position {i} of {q}() - a value '
+                                 f'{maybe_absent[(q, i)]} guards with `or` because it can be None - without filtering it: TypeError for a '
+                                 f'lexicon that has such rows (frames of WN-LMF 1.0 sources have no id)')
+    if n < 1:
+        raise AnalysisError('no ordering of a possibly absent exported value found (expected: subcat built from frame ids)')
+
+
+# ---------------------------------------------------------------------------
+# R14: "absent" is encoded as '' by the exporter, so the writer must test truth, not presence
+
+def exporter_empty_fallback_keys(ctx):
+    """keys the exporter always supplies, with '' (or None) standing for "the stored value is absent": `'id': fid or ''`"""
+    keys = {}
+    for f in ctx.repo.all_funcs():
+        if f.module.short != '_export':
+            continue
+        for n in walk_no_nested(f.node):
+            if isinstance(n, ast.Dict):
+                for k, v in zip(n.keys, n.values):
+                    if not (isinstance(k, ast.Constant) and isinstance(k.value, str)):
+                        continue
+                    if (isinstance(v, ast.BoolOp) and isinstance(v.op, ast.Or) and isinstance(v.values[-1], ast.Constant) and not v.values[-1].value) \
+                            or (isinstance(v, ast.Constant) and v.value in ('', None)):
+                        keys.setdefault(k.value, f.module.loc(n))
+            if isinstance(n, ast.Assign) and len(n.targets) == 1 and isinstance(n.targets[0], ast.Subscript) \
+                    and isinstance(n.targets[0].slice, ast.Constant) and isinstance(n.targets[0].slice.value, str):
+                v = n.value
+                if isinstance(v, ast.BoolOp) and isinstance(v.op, ast.Or) and isinstance(v.values[-1], ast.Constant) and not v.values[-1].value:
+                    keys.setdefault(n.targets[0].slice.value, f.module.loc(n))
+    return keys
+
+
+def _writer_functions(ctx):
+    dump = ctx.repo.func('lmf', 'dump')
+    seen, todo = {dump.key: dump}, [dump]
+    while todo:
+        g = todo.pop()
+        for call, cal in ctx.cg.callees(g):
+            for c in cal:
+                if c.module.short == 'lmf' and c.key not in seen:
+                    seen[c.key] = c
+                    todo.append(c)
+    return list(seen.values())
+
+
+def r14_writer_tests_truth_not_presence(ctx, res):
+    """two sites that must agree: the exporter hands every optional attribute to the writer, with '' when the database has no
+    value (`'id': fid or ''`, `'logo': lexicon.logo or ''`); the writer therefore decides by TRUTH (`form.get('id')`) whether to
+    write the attribute.  A presence test (`'id' in form`, `form.get('id') is not None`) writes `id=""` for every exported
+    element without one - the re-imported forms then share the id '' (and FORM_QUERY `f.id = ?` attaches their tags and
+    pronunciations to the first of them)."""
+    keys = exporter_empty_fallback_keys(ctx)
+    if len(keys) < 5:
+        raise AnalysisError(f'only {len(keys)} keys with an empty fallback found in the exporter')
+    res.note(f'keys the exporter fills with an empty fallback: {sorted(keys)}')
+    writers = _writer_functions(ctx)
+    if len(writers) < 15:
+        raise AnalysisError(f'only {len(writers)} writer functions reachable from lmf.dump')
+    for f in writers:
+        key0 = f'writer-truth:{f.qualname}'
+        res.inst(key0, f.module.loc(f.node), 'presence tests on exporter-supplied keys')
+        for n in walk_no_nested(f.node):
+            k = None
+            if isinstance(n, ast.Compare) and len(n.ops) == 1 and isinstance(n.ops[0], (ast.In, ast.NotIn)) \
+                    and isinstance(n.left, ast.Constant) and isinstance(n.left.value, str):
+                k = n.left.value
+            elif isinstance(n, ast.Compare) and len(n.ops) == 1 and isinstance(n.ops[0], (ast.Is, ast.IsNot)) \
+                    and isinstance(n.comparators[0], ast.Constant) and n.comparators[0].value is None:
+                x = n.left
+                if isinstance(x, ast.Call) and isinstance(x.func, ast.Attribute) and x.func.attr == 'get' and x.args \
+                        and isinstance(x.args[0], ast.Constant) and len(x.args) == 1:
+                    k = x.args[0].value
+                elif isinstance(x, ast.Subscript) and isinstance(x.slice, ast.Constant):
+                    k = x.slice.value
+            if k in keys:
+                key = f'{key0}:{k}'
+                res.inst(key, f.module.loc(n), norm(n))
+                res.find(key, f.module.loc(n),
+                         f'{f.qualname} decides with `{norm(n)}` whether {k!r} is there, but the exporter always supplies {k!r} - as \'\' '
+                         f'when the database has none ({keys[k]}): an exported element without {k} is written with {k}=""')
+
+
 RULES = [
     ('C03-R1', r1_coverage, 75),
     ('C03-R2', r2_guard_consistency, 3),
@@ -732,4 +989,7 @@ RULES = [
     ('C03-R9', r9_declared_order, 2),
     ('C03-R10', r10_export_written_wellformed, 7),
     ('C03-R11', r11_exported_queries_scoped, 15),
+    ('C03-R12', r12_frames_referable, 1),
+    ('C03-R13', r13_absent_values_guarded, 1),
+    ('C03-R14', r14_writer_tests_truth_not_presence, 15),
 ]
